@@ -184,6 +184,9 @@ def normalise_module(tree):
     k = strip_casts(tree)
     if k:
         done.append("%d typing.cast" % k)
+    k = resugar_async(tree)
+    if k:
+        done.append("%d explicit async protocol forms" % k)
     k = detabulate(tree)
     if k:
         done.append("%d table-driven forms" % k)
@@ -2152,3 +2155,133 @@ def detabulate(tree):
         Tidy().visit(tree)
         ast.fix_missing_locations(tree)
     return stats[0]
+
+
+# ------------------------------------------------------------------------------------------------------------------
+# `async for` / `async with` spelled out as their protocol calls (PEP 492) are read as the statements they are:
+#
+#     it = X.__aiter__()                          mgr = E
+#     while True:                                 v = await mgr.__aenter__()
+#         try: t = await it.__anext__()           try: BODY
+#         except StopAsyncIteration: break        except BaseException [as e]:
+#         BODY                                        if not await mgr.__aexit__(type(e), e, e.__traceback__): raise
+#     ->  async for t in X: BODY                  else: await mgr.__aexit__(None, None, None)
+#                                                 ->  async with E as v: BODY
+#
+# also with the dunder looked up on the type (`type(o).__anext__(o)`) or through a local alias of it, and
+# `*sys.exc_info()` for the three exception arguments.  The helper variables must be used for nothing else.
+def resugar_async(tree):
+    n_done = [0]
+
+    def dunder_call(e, obj, name, aliases):
+        """the argument list of obj.<name>(...) in one of its spellings, else None"""
+        if not isinstance(e, ast.Call) or e.keywords:
+            return None
+        f = e.func
+        if isinstance(f, ast.Attribute) and f.attr == name:
+            if isinstance(f.value, ast.Name) and f.value.id == obj:
+                return list(e.args)
+            if isinstance(f.value, ast.Call) and isinstance(f.value.func, ast.Name) and f.value.func.id == "type" and len(f.value.args) == 1 and isinstance(f.value.args[0], ast.Name) and f.value.args[0].id == obj and e.args and isinstance(e.args[0], ast.Name) and e.args[0].id == obj:
+                return list(e.args[1:])
+        if isinstance(f, ast.Name) and aliases.get(f.id) == (obj, name) and e.args and isinstance(e.args[0], ast.Name) and e.args[0].id == obj:
+            return list(e.args[1:])
+        return None
+
+    def uses(fn, name):
+        return sum(1 for n in ast.walk(fn) if isinstance(n, ast.Name) and n.id == name)
+
+    def exc_args_ok(args, exc_name):
+        if len(args) == 1 and isinstance(args[0], ast.Starred) and isinstance(args[0].value, ast.Call) and _dotted(args[0].value.func) == "sys.exc_info":
+            return True
+        if len(args) == 3 and exc_name:
+            a, b, c = args
+            return isinstance(a, ast.Call) and isinstance(a.func, ast.Name) and a.func.id == "type" and len(a.args) == 1 and isinstance(a.args[0], ast.Name) and a.args[0].id == exc_name and isinstance(b, ast.Name) and b.id == exc_name and isinstance(c, ast.Attribute) and c.attr == "__traceback__" and isinstance(c.value, ast.Name) and c.value.id == exc_name
+        return False
+
+    def block(stmts, fn):
+        out = []
+        i = 0
+        while i < len(stmts):
+            st = stmts[i]
+            # ---- async for
+            if isinstance(st, ast.Assign) and len(st.targets) == 1 and isinstance(st.targets[0], ast.Name) and i + 1 < len(stmts) and isinstance(stmts[i + 1], ast.While) and fn is not None:
+                it = st.targets[0].id
+                src = None
+                v = st.value
+                if isinstance(v, ast.Call) and not v.keywords:
+                    if isinstance(v.func, ast.Attribute) and v.func.attr == "__aiter__" and not v.args:
+                        src = v.func.value
+                    elif isinstance(v.func, ast.Attribute) and v.func.attr == "__aiter__" and isinstance(v.func.value, ast.Call) and len(v.args) == 1:
+                        src = v.args[0]
+                    elif isinstance(v.func, ast.Name) and v.func.id == "aiter" and len(v.args) == 1:
+                        src = v.args[0]
+                w = stmts[i + 1]
+                if src is not None and isinstance(w.test, ast.Constant) and w.test.value is True and not w.orelse and w.body and isinstance(w.body[0], ast.Try):
+                    t = w.body[0]
+                    if len(t.body) == 1 and isinstance(t.body[0], ast.Assign) and len(t.body[0].targets) == 1 and isinstance(t.body[0].value, ast.Await) and not t.orelse and not t.finalbody and len(t.handlers) == 1 and _dotted(t.handlers[0].type) == "StopAsyncIteration" and len(t.handlers[0].body) == 1 and isinstance(t.handlers[0].body[0], ast.Break):
+                        nxt = t.body[0].value.value
+                        args = dunder_call(nxt, it, "__anext__", {})
+                        if args is None and isinstance(nxt, ast.Call) and isinstance(nxt.func, ast.Name) and nxt.func.id == "anext" and len(nxt.args) == 1 and isinstance(nxt.args[0], ast.Name) and nxt.args[0].id == it:
+                            args = []
+                        if args == [] and uses(fn, it) == 2:
+                            new = ast.AsyncFor(target=t.body[0].targets[0], iter=src, body=block(w.body[1:], fn) or [ast.Pass()], orelse=[], type_comment=None)
+                            ast.copy_location(new, w)
+                            out.append(new)
+                            n_done[0] += 1
+                            i += 2
+                            continue
+            # ---- async with
+            if isinstance(st, ast.Assign) and len(st.targets) == 1 and isinstance(st.targets[0], ast.Name) and fn is not None and i + 2 < len(stmts):
+                mgr = st.targets[0].id
+                j = i + 1
+                aliases = {}
+                enter = None
+                var = None
+                while j < len(stmts) and isinstance(stmts[j], ast.Assign) and len(stmts[j].targets) == 1 and isinstance(stmts[j].targets[0], ast.Name):
+                    a = stmts[j]
+                    if isinstance(a.value, ast.Attribute) and a.value.attr in ("__aexit__", "__aenter__") and isinstance(a.value.value, ast.Call) and isinstance(a.value.value.func, ast.Name) and a.value.value.func.id == "type" and len(a.value.value.args) == 1 and isinstance(a.value.value.args[0], ast.Name) and a.value.value.args[0].id == mgr:
+                        aliases[a.targets[0].id] = (mgr, a.value.attr)
+                        j += 1
+                        continue
+                    if isinstance(a.value, ast.Await) and dunder_call(a.value.value, mgr, "__aenter__", aliases) == []:
+                        enter = a
+                        var = a.targets[0]
+                        j += 1
+                        # an alias may also follow the enter
+                        continue
+                    break
+                if enter is not None and j < len(stmts) and isinstance(stmts[j], ast.Try):
+                    t = stmts[j]
+                    h = t.handlers[0] if len(t.handlers) == 1 else None
+                    good = h is not None and _dotted(h.type) == "BaseException" and not t.finalbody and len(t.orelse) == 1 and len(h.body) == 1
+                    if good:
+                        e = t.orelse[0]
+                        good = isinstance(e, ast.Expr) and isinstance(e.value, ast.Await) and (lambda a: a is not None and len(a) == 3 and all(isinstance(x, ast.Constant) and x.value is None for x in a))(dunder_call(e.value.value, mgr, "__aexit__", aliases))
+                    if good:
+                        c = h.body[0]
+                        good = isinstance(c, ast.If) and not c.orelse and len(c.body) == 1 and isinstance(c.body[0], ast.Raise) and c.body[0].exc is None and isinstance(c.test, ast.UnaryOp) and isinstance(c.test.op, ast.Not) and isinstance(c.test.operand, ast.Await)
+                        if good:
+                            a = dunder_call(c.test.operand.value, mgr, "__aexit__", aliases)
+                            good = a is not None and exc_args_ok(a, h.name)
+                    expected_uses = 1 + sum(1 for n in ast.walk(ast.Module(body=stmts[i + 1 : j + 1], type_ignores=[])) if isinstance(n, ast.Name) and n.id == mgr and n not in [x for s in t.body for x in ast.walk(s)])
+                    if good and uses(fn, mgr) == expected_uses and not any(isinstance(n, ast.Name) and n.id == mgr for s in t.body for n in ast.walk(s)):
+                        new = ast.AsyncWith(items=[ast.withitem(context_expr=st.value, optional_vars=ast.Name(id=var.id, ctx=ast.Store()))], body=block(t.body, fn), type_comment=None)
+                        ast.copy_location(new, t)
+                        out.append(new)
+                        n_done[0] += 1
+                        i = j + 1
+                        continue
+            for f in ("body", "orelse", "finalbody"):
+                if isinstance(getattr(st, f, None), list) and getattr(st, f) and isinstance(getattr(st, f)[0], ast.stmt):
+                    inner_fn = st if isinstance(st, (ast.FunctionDef, ast.AsyncFunctionDef)) else (None if isinstance(st, ast.ClassDef) else fn)
+                    setattr(st, f, block(getattr(st, f), inner_fn))
+            for h in getattr(st, "handlers", []) or []:
+                h.body = block(h.body, fn)
+            out.append(st)
+            i += 1
+        return out
+
+    tree.body = block(tree.body, None)
+    if n_done[0]:
+        ast.fix_missing_locations(tree)
+    return n_done[0]
